@@ -67,6 +67,17 @@ meta('C17', 'other', 'symbolic execution of rustc MIR (mirsym) + z3: per-path ob
      assumptions=['redis::Pipeline / Cmd are command-list builders; query_async hands the list to the server and yields its reply', 'usize::to_string is injective'])
 
 
+meta('C16', 'other', 'symbolic execution of rustc MIR (mirsym) + z3 (String theory): per-path obligations',
+     explanation='(a) Manager::recycle of deadpool-postgres for every RecyclingMethod (custom SQL symbolic), open/closed client and every reply (ok / error / delayed): a closed client is rejected '
+                 'without a query; otherwise exactly the documented check is issued and recycle fails exactly when it fails. (b) every sequence of up to 3 (thorough: 4) prepare / remove / clear '
+                 'operations of the real StatementCache over keys that differ in text or only in parameter types, plus two overlapping prepares of one key: a hit returns the statement cached '
+                 'for that exact key with no call into the client, a miss prepares once with the same arguments, size() equals the number of cached keys. (c) registry: for every fate '
+                 '(pooled / detached / discarded) of 2-3 clients created through Manager::create, the registry addresses exactly the caches of the clients still pooled and clear() reaches those and no others. '
+                 'With C04 (a failing recycle discards) and C09 (detach exactly once) this gives the property.',
+     outside='the wire level (claims are at the level of calls into tokio_postgres::Client); HashMap hashing (key equality is decided on both fields as the derived PartialEq does); Transaction wrappers share the same cache object and code path',
+     assumptions=['tokio_postgres::Client::{is_closed, simple_query, prepare_typed} are models that log their arguments and answer as scripted', 'tracing is disabled (no subscriber)'])
+
+
 def mfam(name, oracles, depth, **kw):
     cfg = {'oracles': tuple(oracles), 'depth': depth}
     cfg.update(kw)
@@ -192,6 +203,10 @@ def jobs_for(pid, tier, seed):
                     for meth in methods:
                         J.append({'name': f'{mgr} recycle: history {list(pre) or "fresh"}, backend {b or "healthy"}' + (f', method {meth}' if mgr == 'diesel' else ''),
                                   'kind': 'recycle_bse', 'cfg': {'manager': mgr, 'prefix': pre, 'backend': b, 'method': meth if mgr == 'diesel' else 'Fast', 'depth': 10}, 'crates': C})
+    elif pid == 'C16':
+        n = 4 if q else 8
+        for i in range(n):
+            J.append({'name': f'recycle methods, statement cache sequences, registry fates (shard {i + 1}/{n})', 'kind': 'pgmanager', 'cfg': {'shard': (i, n)}, 'crates': ['deadpool', 'deadpool_postgres']})
     elif pid == 'C17':
         J.append({'name': 'recycle() of the standalone, sentinel and cluster managers: commands sent, echo check, freshness over 2-3 recycles', 'kind': 'redisrecycle', 'cfg': {}, 'crates': ['deadpool', 'deadpool_redis']})
     elif pid == 'C19':
@@ -275,6 +290,9 @@ def run(job):
                 'functions': dict(S.fns), 'models': dict(S.models), 'dump_s': prog.dump_s,
                 'bounds': {'depth': B.cfg['depth'], 'interacts': B.cfg.get('max_interacts'), 'blocking_pool': 'tasks run atomically in any order', **{k: _jsonable(v) for k, v in cfg.items() if k in ('manager', 'prefix', 'backend', 'method')}},
                 'summary': f'{R.states} states, {R.transitions} transitions, depth {R.max_depth}, {len(vios)} violation(s)'}
+    if job['kind'] == 'pgmanager':
+        from . import w_pg
+        return w_pg.run_c16(prog, job)
     if job['kind'] == 'redisrecycle':
         from . import w_redis
         return w_redis.run_c17(prog, job)
